@@ -208,7 +208,7 @@ impl SimRng {
             return Ok(());
         }
         if let Some((g, me)) = &self.gate {
-            g.yield_point(*me);
+            g.yield_point(*me, true);
         }
         self.attempt += 1;
         self.total_in_call += 1;
